@@ -134,8 +134,7 @@ Definition check_case (c : case) : N :=
       let same := match m with Ok t => beq t impl | _ => false end in
       let exp := expected_lines prefix status strict checks catalog in
       let spec := if consistent then beq impl (join (sort_desc exp) [10]) else same in
-      let region := if key_collision_b (instances_of checks catalog) then Some 1
-                    else if untrimmed_region_b prefix checks catalog then Some 2 else None in
+      let region := if key_collision_b (instances_of checks catalog) then Some 1 else None in
       let all := flat_map e_cmds catalog in
       verdict same spec region (negb (Nat.eqb (length exp) 0) && negb (Nat.eqb (length exp) (length all)))
   | CWatch texts builds evs impl =>
